@@ -19,6 +19,9 @@ from vf import lin
 from vf.lin import HarnessError
 
 
+SPARSE_ABOVE = 30
+
+
 class RG:
     def __init__(self, M, S, V, rules):
         self.M = M
@@ -148,7 +151,29 @@ class Inside:
                 if not M.is_zero(v):
                     A[G.idx[h]][G.idx[y]] = M.add(A[G.idx[h]][G.idx[y]], v)
         self.A = A
-        self.Astar = lin.mat_star(M, A)
+        # small systems: closed form A* (exact elimination in fields).  Large ones (composed
+        # grammars with hundreds of nonterminals): sparse iteration of x = A x + b per span.
+        self.sparse = None
+        if n > SPARSE_ABOVE:
+            self.sparse = [[(j, A[i][j]) for j in range(n) if not M.is_zero(A[i][j])] for i in range(n)]
+        else:
+            self.Astar = lin.mat_star(M, A)
+
+    def _solve(self, b):
+        M = self.G.M
+        if self.sparse is None:
+            return lin.mat_vec(M, self.Astar, b)
+        rows = self.sparse
+
+        def step(x):
+            out = list(b)
+            for i, row in enumerate(rows):
+                for j, a in row:
+                    if not M.is_zero(x[j]):
+                        out[i] = M.add(out[i], M.mul(a, x[j]))
+            return out
+
+        return _kleene(M, step, len(b), "same-span system")
 
     def _nullsym(self, z):
         return self.G.M.zero if self.G.is_t(z) else self.null[z]
@@ -194,7 +219,7 @@ class Inside:
                     v = f.get(k, M.zero)
                     if not M.is_zero(v):
                         b[G.idx[h]] = M.add(b[G.idx[h]], M.mul(w, v))
-                x = lin.mat_vec(M, self.Astar, b)
+                x = self._solve(b)
                 c[i, k] = {X: x[j] for X, j in G.idx.items()}
         return c
 
@@ -273,6 +298,54 @@ def intersect(G, A, order=None):
                 rules.append((w, (q, a, q2), ()))
     # terminals of G without an arc: the nonterminal (q,a,q2) simply has no rule (weight zero)
     return RG(M, S2, V2, rules)
+
+
+def compose_total(G, A):
+    """sum_x G(x) * A(x) for an epsilon-free weighted automaton A, as the least solution of the
+    matrix equations  W_X = sum_{X -> Y1..Ym} w * W_Y1 ... W_Ym  (W_a = arc matrix of a,
+    empty product = identity); the answer is start . W_S . stop."""
+    M = G.M
+    n = A.n
+    I = lin.identity(M, n)
+    Wt = {}
+    for a in G.V:
+        m = lin.zeros(M, n)
+        for (q, a2), outs in A.arcs.items():
+            if a2 == a:
+                for q2, w in outs:
+                    m[q][q2] = M.add(m[q][q2], w)
+        Wt[a] = m
+    Gb = binarize(G)
+    W = {X: lin.zeros(M, n) for X in Gb.N}
+
+    def val(y):
+        return Wt[y] if Gb.is_t(y) else W[y]
+
+    for _ in range(20000):
+        new = {X: lin.zeros(M, n) for X in Gb.N}
+        for w, h, b in Gb.rules:
+            if len(b) == 0:
+                P = I
+            elif len(b) == 1:
+                P = val(b[0])
+            else:
+                P = lin.mat_mul(M, val(b[0]), val(b[1]))
+            tgt = new[h]
+            for i in range(n):
+                Pi, ti = P[i], tgt[i]
+                for j in range(n):
+                    if not M.is_zero(Pi[j]):
+                        ti[j] = M.add(ti[j], M.mul(w, Pi[j]))
+        if M.exact:
+            done = new == W
+        else:
+            done = all(_close(M, W[X][i][j], new[X][i][j]) for X in W for i in range(n) for j in range(n))
+        W = new
+        if done:
+            start = [A.start.get(q, M.zero) for q in range(n)]
+            stop = [A.stop.get(q, M.zero) for q in range(n)]
+            return lin.dot(M, lin.vec_mat(M, start, W[Gb.S]), stop)
+    raise HarnessError("compose_total did not stabilise")
 
 
 def prefix_dfa(M, V, p):
